@@ -78,7 +78,7 @@ func c08Specs(tier string) []*h.SeqSpec {
 						s.Open = false
 						continue
 					}
-					vs = append(vs, h.V("session-isolated", "session-died:"+reason, "session %s (open per the model, %d bytes) no longer answers after %s: %s", sl, len(s.Bytes), reason, r))
+					vs = append(vs, h.V("session-isolated", "session-died:"+strings.ReplaceAll(reason, " ", "-"), "session %s (open per the model, %d bytes) no longer answers after %s: %s", sl, len(s.Bytes), reason, r))
 					s.Open = false
 				}
 			}
@@ -240,6 +240,34 @@ func c08Specs(tier string) []*h.SeqSpec {
 				}})
 			}
 		}
+		// a chunk whose body takes longer than the grace period to arrive: every piece that is written keeps the session
+		// (and has to keep what the session lives in) alive
+		ops = append(ops, h.Op{Name: "PATCH s1 \"xyz\" streamed slowly (40 minutes pass after each byte)", Do: func(w *h.World) []h.Violation {
+			m := sessM(w)
+			s := m.S["s1"]
+			if s == nil || !s.Open {
+				return nil
+			}
+			n := len(s.Bytes)
+			r := w.Do(h.Req{Method: "PATCH", Path: s.Path, Query: "state=" + stateToken(n), Body: []byte("xyz"), Slow: []time.Duration{40 * time.Minute, 40 * time.Minute},
+				Header: map[string]string{"Content-Type": "application/octet-stream", "Content-Range": fmt.Sprintf("%d-%d", n, n+2)}})
+			var vs []h.Violation
+			if r.Status != 202 {
+				vs = append(vs, h.V("in-order-accepted", "slow-chunk-refused", "PATCH with correct offsets at %d whose body took 80 minutes (a byte every 40, grace period 1h) was refused: %s", n, r))
+			} else {
+				s.Bytes = append(s.Bytes, "xyz"...)
+			}
+			// the other sessions were idle for 80 minutes
+			vs = append(vs, reconcile(w, "80-minutes-while-s1-received-a-slow-chunk", func(o *Sess) bool { return o != s })...)
+			alive, rep, off, sr := c08Status(w, s)
+			if !alive {
+				vs = append(vs, h.V("refusal-leaves-session", "session-died:slow-PATCH", "session s1 no longer answers after a chunk that took 80 minutes to arrive, a byte every 40 (grace period 1h): PATCH %d, status %s", r.Status, sr))
+				s.Open = false
+			} else if rep != len(s.Bytes) || off != len(s.Bytes) {
+				vs = append(vs, h.V("status-reports-bytes", "status-wrong", "session s1 holds %d bytes per the model, status reports Range end+1=%d, state offset=%d (%s)", len(s.Bytes), rep, off, sr))
+			}
+			return vs
+		}})
 		// PUT variants
 		for _, sl := range slots[:2] {
 			for _, last := range []string{"", "z"} {
